@@ -1,5 +1,5 @@
 """Property -> rule composition.  Each function decides the statically decidable clauses of one property."""
-from .rules import kdefects, numeric, seed, typestate, ownership, clifford, circuit, stabilizer, adjoint
+from .rules import kdefects, numeric, seed, typestate, ownership, clifford, circuit, stabilizer, adjoint, manifold, gellmann
 
 M = 'numqi.'
 DECISION_C05 = ['numqi.entangle.ppt.is_ppt', 'numqi.entangle.ppt.is_generalized_ppt',
@@ -41,6 +41,48 @@ def c07(proj, rep, tier):
     rep.floor('S5 bounded index draws in CliffordCircuit', n, 2)
     rep.assume('phase bookkeeping of apply_clifford_on_pauli / clifford_multiply / clifford_array_to_F2 is Z4 arithmetic on '
                'runtime arrays and is not decided')
+
+
+MANIFOLD = ['numqi.manifold._internal', 'numqi.manifold._stiefel', 'numqi.manifold._compose', 'numqi.manifold._ABk',
+            'numqi.manifold._misc']
+
+
+def c01(proj, rep, tier):
+    ncls, narms = manifold.w1(proj, rep)
+    rep.floor('W1 manifold classes with a functional twin', ncls, 9)
+    rep.floor('W1 delegation arms', narms, 19)
+    n = manifold.w2(proj, rep)
+    rep.floor('W2 classes with a method option', n, 6)
+    n3, n4 = manifold.w3(proj, rep)
+    rep.floor('W3 (class, option, field) configurations with a length test', n3, 25)
+    n = kdefects.k3(proj, rep, MANIFOLD)
+    n = kdefects.k1(proj, rep, MANIFOLD)
+    rep.assume('membership itself (unit norm, PSD, X^dagger X = I, simplex, interval) for all theta is value-level: not decided; '
+               'known blind spots: ball map formula, Euler-map batch broadcast, float32 conditioning')
+
+
+def c02(proj, rep, tier):
+    n3, n4 = manifold.w3(proj, rep)
+    rep.floor('W4 parameter-count vs manifold-dimension configurations', n4, 30)
+    ncls, narms = manifold.w1(proj, rep)
+    rep.floor('W1 delegation arms (theta reaches the map)', narms, 19)
+    nsite, ntyped = gellmann.g2(proj, rep, ['numqi.manifold._internal', 'numqi.manifold._stiefel'])
+    rep.floor('G2 projected Gell-Mann synthesis sites in the manifold maps', ntyped, 6)
+    rep.assume('full rank of the Jacobian at generic theta is value-level: only necessary conditions (parameter count, theta '
+               'placed in a field the projection keeps, theta reaches the map) are decided')
+    rep.assume('Stiefel so-exp/so-cayley at rank==dim parametrise SO(d)/SU(d) (as the option name says), so the bound used '
+               'there is min(dim St(d,r), dim SO/SU(d))')
+
+
+def c16(proj, rep, tier):
+    n = gellmann.g1(proj, rep)
+    rep.floor('G1 layout obligations inside numqi.gellmann', n, 12)
+    nsite, ntyped = gellmann.g2(proj, rep, None)
+    rep.floor('G2 synthesis call sites in the package', nsite, 20)
+    rep.floor('G2 projected sites typed', ntyped, 10)
+    ncache, nsites = ownership.o1(proj, rep, focus={'numqi.gellmann._all_gellmann_matrix_cache'})
+    rep.floor('O1 Gell-Mann cache + wrapper', ncache, 2)
+    rep.assume('orthogonality Tr(G_i G_j) = 2 delta_ij, exact round trip and the float32 path are value-level: not decided')
 
 
 def c03(proj, rep, tier):
@@ -115,10 +157,15 @@ def c18(proj, rep, tier):
 def c20(proj, rep, tier):
     n = numeric.t1(proj, rep, DECISION_C20)
     rep.floor('T1 decision comparisons (C20)', n, 4)
+    nsite, ntyped = gellmann.g2(proj, rep, ['numqi.matrix_space._misc'])
+    rep.floor('G2 projected synthesis sites in matrix_space._misc', ntyped, 2)
+    n = gellmann.g3(proj, rep, ['numqi.matrix_space._misc.get_matrix_orthogonal_basis',
+                                'numqi.matrix_space._misc.detect_commute_matrix'])
+    rep.floor('G3 analyse/reduce/synthesise sites', n, 4)
 
 
 def dev(proj, rep, tier):
-    print(adjoint.a4_a5(proj, rep), adjoint.a2_grad_helpers(proj, rep), adjoint.a_kl(proj, rep), adjoint.d1(proj, rep))
+    print(gellmann.g3(proj, rep, ['numqi.matrix_space._misc.get_matrix_orthogonal_basis','numqi.matrix_space._misc.detect_commute_matrix']))
 
 
-PROPS = {'C03': c03, 'C04': c04, 'C05': c05, 'C07': c07, 'C19': c19, 'C10': c10, 'C11': c11, 'C18': c18, 'C20': c20, 'DEV': dev}
+PROPS = {'C01': c01, 'C02': c02, 'C16': c16, 'C03': c03, 'C04': c04, 'C05': c05, 'C07': c07, 'C19': c19, 'C10': c10, 'C11': c11, 'C18': c18, 'C20': c20, 'DEV': dev}
